@@ -21,6 +21,9 @@ CORE = ("node-shutdown", "node-startup", "node-reset", "node-service-stop", "nod
         "node-application-execute", "node-folder-restore", "node-account-change-password")
 
 
+# action types of which EVERY action-map entry (every target) belongs to a reduced alphabet, not only a representative
+ALL_TARGETS = ("node-shutdown", "node-startup")
+
 TAP_INTERFERENCE = ("node-application-remove", "node-shutdown", "node-application-close", "router-acl-add-rule", "firewall-acl-add-rule",
                     "host-nic-disable", "node-service-stop", "node-file-delete", "node-account-change-password",
                     "node-session-remote-logoff", "node-application-install")
@@ -54,7 +57,7 @@ def _core_alphabet(cfg_or_path, CORE):
     for i in sorted(amap):
         name = amap[i]["action"]
         tgt = str(sorted(amap[i].get("options", {}).items()))[:60]
-        if name in CORE and (name, "ghost" in tgt) not in seen:
+        if name in CORE and (name.startswith(ALL_TARGETS) or (name, "ghost" in tgt) not in seen):
             seen.add((name, "ghost" in tgt))
             out.append(i)
     return out
